@@ -155,6 +155,51 @@ func c16threshold(r *rec.Rec) {
 	}
 }
 
+// exact: one caller inserts exactly maxBulkRows rows into a fresh inserter and calls nothing
+// else.  The background ticker cannot fire earlier than flushInterval after the first Insert
+// began, so an execution that begins before that moment was triggered by the size threshold.
+// If none begins in that window the observation is repeated on fresh inserters; only when
+// three attempts agree is it logged (`threshold-no-flush`).  Attempts on a machine too slow to
+// finish the inserts inside the window are not judged.
+func c16exact(r *rec.Rec) {
+	for attempt := 1; attempt <= 3 && !r.Hung; attempt++ {
+		x := c16new(r, "exact", 0)
+		t0 := time.Now()
+		if !x.h.Run(1, func(p int, rr *rand.Rand) {
+			for i := 0; i < maxBulkRows; i++ {
+				x.insert(p)
+			}
+		}) {
+			return
+		}
+		window := flushInterval*95/100 - time.Since(t0)
+		began, judged := false, window > flushInterval/10
+		if judged {
+			select {
+			case <-x.conn.seen:
+				began = true
+			case <-time.After(window):
+			}
+		}
+		switch {
+		case !judged:
+			r.Count("thr_void")
+		case began:
+			r.Ev(kit.M{"e": "thr"})
+			r.Count("thr_checked")
+		case attempt == 3:
+			r.Ev(kit.M{"e": "threshold-no-flush", "rows": maxBulkRows, "attempts": attempt,
+				"window_ms": int(window / time.Millisecond)})
+			r.Count("thr_checked")
+		}
+		x.insert(1) // one more row: it must not join the full batch
+		x.h.Finish(x.bi.executor.Wait)
+		if began {
+			return
+		}
+	}
+}
+
 // tick: nothing but the background flusher's (real, 1 s) ticker executes the rows.
 func c16tick(r *rec.Rec) {
 	x := c16new(r, "tick", 0)
@@ -183,6 +228,9 @@ func TestVerifC16Inserter(t *testing.T) {
 	for i := 0; i < rounds && !r.Hung; i++ {
 		if i == 0 {
 			c16tick(r)
+			if !r.Hung {
+				c16exact(r)
+			}
 		}
 		if i%25 == 0 && !r.Hung {
 			c16threshold(r)
